@@ -1,13 +1,16 @@
 package harness
 
 import (
+	"bufio"
 	"encoding/binary"
 	"encoding/json"
 	"fmt"
 	"os"
 	"path/filepath"
+	"runtime"
 	"runtime/debug"
 	"sort"
+	"strings"
 	"sync/atomic"
 	"time"
 
@@ -147,6 +150,13 @@ func RunWorker(a WorkerArgs) int {
 		_ = os.WriteFile(a.Out, b, 0o644)
 		return 0
 	}
+	// VERIF_RUNLOG=<file>: one line per run (run, schedule hash, steps, non-trivial) - for finding the run in which two
+	// executions of one seed part ways (determinism self-test)
+	var runlog *os.File
+	if f := os.Getenv("VERIF_RUNLOG"); f != "" {
+		runlog, _ = os.Create(f)
+		defer runlog.Close()
+	}
 	var progress *os.File
 	if a.Progress != "" {
 		progress, _ = os.OpenFile(a.Progress, os.O_CREATE|os.O_RDWR, 0o644)
@@ -191,7 +201,34 @@ func RunWorker(a WorkerArgs) int {
 			binary.LittleEndian.PutUint64(buf[:], uint64(i))
 			_, _ = progress.WriteAt(buf[:], 0)
 		}
+		var stepFlush func()
+		if f := os.Getenv("VERIF_STEPLOG"); f != "" && os.Getenv("VERIF_STEPRUN") == fmt.Sprint(i) {
+			// one line per scheduling point of this run, with the place in the library it stands at
+			lf, _ := os.Create(f)
+			w := bufio.NewWriter(lf)
+			sim.StepLog = func(step, task int, op uint8) {
+				var pcs [24]uintptr
+				n := runtime.Callers(3, pcs[:])
+				fr := runtime.CallersFrames(pcs[:n])
+				where := ""
+				for k := 0; k < 6; k++ {
+					f, more := fr.Next()
+					if !strings.Contains(f.File, "/sim/") {
+						where += fmt.Sprintf(" %s:%d", filepath.Base(f.File), f.Line)
+					}
+					if !more {
+						break
+					}
+				}
+				fmt.Fprintf(w, "%d t%d op%d%s\n", step, task, op, where)
+			}
+			stepFlush = func() { sim.StepLog = nil; _ = w.Flush(); _ = lf.Close() }
+		}
 		out := safeExec(p, c, a.ExecWrap)
+		if stepFlush != nil {
+			stepFlush()
+			stepFlush = nil
+		}
 		sum.Evaluations++
 		if out.Infra != "" {
 			sum.Infra = fmt.Sprintf("run %d: %s", i, out.Infra)
@@ -209,6 +246,9 @@ func RunWorker(a WorkerArgs) int {
 			if a.KnownKeys[kh.Key] {
 				sum.KnownSeen[kh.Key]++
 			}
+		}
+		if runlog != nil {
+			fmt.Fprintf(runlog, "%d %d %d %v\n", i, out.SchedHash, out.Steps, out.Nontrivial)
 		}
 		sum.SimMs += out.SimMs
 		sum.Steps += out.Steps
